@@ -129,7 +129,7 @@ def random_rule(rng, frac_p):
         thr = rng.choice(FRACTIONAL) if rng.random() < frac_p else rng.choice(COUNTS)
     else:
         thr = rng.choice(RATIOS)
-    return rule(s, thr, rng.choice([0, 1, 1, 2, 3, 5]), rng.choice([1, 200, 500, 1000, 3000]), I, nb,
+    return rule(s, thr, rng.choice([0, 1, 1, 2, 3, 5]), rng.choice([1, 200, 500, 1000, 3000, 1000, 3000, 4294, 4295, 5000, 10000, 60000]), I, nb,      # (incl. retry timeouts beyond 2^32 ns)
                 rng.choice([0, 10, 50, 400, 0, 10, 50, 400, 59999, 60000, 90000]),     # (incl. calls slower than any RT bound of the statistics)
                 rng.choice([0, 0, 1, 2, 3]))
 
